@@ -112,6 +112,15 @@ def Peripheral.new (address : UInt8) (opts : Options) (piI piQ : Bytes) (diagBuf
   { address := address, state := .offline, retry := 0, fcb := .first, piI := piI, piQ := piQ,
     diag := Diag.PState.init diagBuf, diagNeeded := false, diagInFlight := false, opts := opts }
 
+/-- `Peripheral::reset_address(new_address)`: `*self = Self::new(new_address, options, pi_i, pi_q)
+.with_diag_buffer(diag_buffer)` — a fresh peripheral (Offline, retry 0, FCB First, no diagnostics,
+flags clear) that keeps the options, both process images and the diagnostics buffer (its content
+stays, `length = 0`; `take_buffer` + `from_buffer`). -/
+def Peripheral.resetAddress (p : Peripheral) (a : UInt8) : Peripheral :=
+  { address := a, state := .offline, retry := 0, fcb := .first, piI := p.piI, piQ := p.piQ,
+    diag := { info := none, ext := { buf := p.diag.ext.buf, length := 0 } },
+    diagNeeded := false, diagInFlight := false, opts := p.opts }
+
 def Peripheral.isLive (p : Peripheral) : Bool := p.state != .offline
 def Peripheral.isRunning (p : Peripheral) : Bool := p.state == .dataExchange
 
